@@ -178,6 +178,80 @@ pub fn run(args: &Args, families: Vec<Family>) -> SweepResult {
     SweepResult { stats: total, violations, families: fams }
 }
 
+/// Like `run`, with the total number of shards chosen by the caller (engines whose shards carry a
+/// fixed cost, e.g. one node process each, want fewer and larger shards). Shards are sized
+/// proportionally: every family is cut into pieces of about total/target programs.
+pub fn run_with(args: &Args, families: Vec<Family>, target_shards: usize) -> SweepResult {
+    let scratch = Scratch::new("comp-main");
+    let mut shards = vec![];
+    let mut fams = vec![];
+    let total_programs: usize = families.iter().map(|f| family_programs(f).len()).sum();
+    let chunk = total_programs.div_ceil(target_shards.max(1)).max(1);
+    for f in &families {
+        let n = family_programs(f).len();
+        fams.push((f.clone(), n));
+        let mut lo = 0;
+        while lo < n {
+            let pf = scratch.path().join(format!("progress-{}", shards.len()));
+            shards.push(serde_json::to_string(&Shard { family: f.clone(), lo, hi: (lo + chunk).min(n), progress_file: pf.display().to_string() }).unwrap());
+            lo += chunk;
+        }
+    }
+    let mut total = ShardStats::default();
+    let mut violations = vec![];
+    let mut pending = shards;
+    let mut rounds = 0;
+    while !pending.is_empty() && rounds < 50 {
+        rounds += 1;
+        let outs = run_pool(&args.property, args.tier, pending.clone(), args.jobs, &[], Duration::from_secs(args.tier.pick(900, 4 * 3600)));
+        pending.clear();
+        for o in outs {
+            let sh: Shard = serde_json::from_str(&o.shard).unwrap();
+            match o.result {
+                Some(v) => {
+                    let st: ShardStats = serde_json::from_value(v).unwrap_or_else(|e| machinery_error(&format!("bad worker result {e}")));
+                    total.programs += st.programs;
+                    total.accepted += st.accepted;
+                    total.rejected += st.rejected;
+                    total.artifacts += st.artifacts;
+                    total.outcomes.extend(st.outcomes);
+                    for (k, v) in st.extra {
+                        *total.extra.entry(k).or_default() += v;
+                    }
+                    if total.samples.len() < 6 {
+                        total.samples.extend(st.samples.into_iter().take(1));
+                    }
+                    for (_, sig, what, case) in st.failures {
+                        violations.push(Violation { signature: sig, what, case });
+                    }
+                }
+                None => {
+                    // exit code 2 is a worker that stopped with MACHINERY-ERROR: never a verdict
+                    if o.exit == Some(2) && !o.timed_out {
+                        let msg = o.stderr_tail.lines().find(|l| l.contains("MACHINERY-ERROR")).unwrap_or("MACHINERY-ERROR in a worker").to_string();
+                        machinery_error(msg.trim_start_matches("MACHINERY-ERROR: "));
+                    }
+                    let at: usize = std::fs::read_to_string(&sh.progress_file).ok().and_then(|s| s.trim().parse().ok()).unwrap_or(sh.lo);
+                    let progs = family_programs(&sh.family);
+                    let lits: Vec<String> = progs.get(at).map(|p| p.literals().iter().map(|l| l.1.clone()).collect()).unwrap_or_default();
+                    let reason = if o.timed_out { "timeout".to_string() } else { format!("signal {:?} exit {:?}", o.signal, o.exit) };
+                    let msg = o.stderr_tail.lines().find(|l| l.contains("overflowed its stack") || l.contains("panicked") || l.contains("fatal")).unwrap_or("").to_string();
+                    violations.push(Violation {
+                        signature: format!("crash:{}", if msg.contains("overflowed its stack") { "stack-overflow" } else { "abort" }),
+                        what: format!("the compiler process died ({reason}) on program #{at} of {:?}: {} :: {}", sh.family, msg, lits.join(" || ").replace('\n', " ")),
+                        case: json!({"family": sh.family, "index": at, "literals": lits}),
+                    });
+                    total.programs += (at - sh.lo) as u64 + 1;
+                    if at + 1 < sh.hi {
+                        pending.push(serde_json::to_string(&Shard { lo: at + 1, ..sh }).unwrap());
+                    }
+                }
+            }
+        }
+    }
+    SweepResult { stats: total, violations, families: fams }
+}
+
 /// Re-run one recorded case (family + index) in a subprocess-free way is not possible for crashes;
 /// the replay spawns one worker for exactly that program.
 pub fn replay(args: &Args) -> i32 {
